@@ -36,6 +36,14 @@ def run(tier, seed):
         with ThreadPoolExecutor(max_workers=2) as ex:
             list(ex.map(lambda c: common.mc_leg(chk, "MC_ToySign", cfg=os.path.join(common.MC_DIR, c), workers=1, coverage=False),
                         ("MC_ToySign_allkeys.cfg", "MC_ToySign_allkeys_k2.cfg")))
+    # the same theorem with a k x l matrix, l = 2 (vector-shaped s1, y, z; row sums over l columns; vector norm of z), and the
+    # vector-shape slips it exists to exclude, each of which MUST produce a counterexample (transposed matrix, sum over l-1
+    # columns, norm of z[0] only, challenge applied to s1[0] only)
+    common.mc_leg(chk, "MC_ToySignKL", cfg=os.path.join(common.MC_DIR, "MC_ToySignKL_quick.cfg" if tier == "quick" else "MC_ToySignKL.cfg"), workers=14)
+    with ThreadPoolExecutor(max_workers=4) as ex:
+        list(ex.map(lambda m: common.mc_leg(chk, "MC_ToySignKL", cfg=os.path.join(common.MC_DIR, "MC_ToySignKL_mut_%s.cfg" % m), workers=2,
+                                            coverage=False, expect_violation=True),
+                    ("transpose", "norm0") if tier == "quick" else ("transpose", "shortsum", "norm0", "cs1first")))
     # the whole specification (hashing, samplers, codecs, rejection loop) on ring degree 8: staged = literal forms, Verify(Sign) = TRUE
     common.mc_leg(chk, "MC_SmallN", tier=tier, coverage=False, must_print=["REJECT1 taken", "REJECT2 taken"])
     chk.cov["exhaustive"] = False
